@@ -542,6 +542,39 @@ let c17_sb (line : string) : string =
              | Some value -> if not (c17_label_sb (st (strip_thread (dec p))) value) then bad ("row-label-is-not-the-received-value:" ^ it)
              | None -> bad ("unreadable-value:" ^ it))
           | _ -> ()) got;
+      (* type labels: for every executed instantiation of a generic function, the part of the row's path between
+         the function's display path and the const / argument labels is the label of the type; it must name the
+         type (label and type_name agree once `ident::` qualifiers are deleted), and within one function two
+         instantiations may share a label only if their type names agree up to qualifiers *)
+      let fm = find_module_group groups in
+      let per_group = Hashtbl.create 8 in
+      List.iter (fun it ->
+          match String.split_on_char '=' it with
+          | p :: cid :: rest when String.length cid > 1 ->
+            let id = n_of_string (String.sub cid 1 (String.length cid - 1)) in
+            (match List.find_opt (fun e -> match e with AGeneric (_, ge) -> ge.ge_id = id | _ -> false) (all_entries benches groups) with
+             | Some (AGeneric (g, ge)) ->
+               let ty = (match ge.ge_kind with GType t -> Some (t, "") | GConst (Some t, c0) -> Some (t, "::" ^ ts c0) | GConst (None, _) -> None) in
+               (match ty with
+                | Some (raw, ctail) ->
+                  let gpath = ts (chain_path (List.append (module_chain fm [] (module_components g.g_meta)) [((g.g_meta).m_raw, Some g)])) in
+                  let atail = (match rest with [v] -> (match parse_val v with Some value -> "::" ^ ts (value_to_string value) | None -> "") | _ -> "") in
+                  let path = strip_thread (dec p) in
+                  let pre = gpath ^ "::" and tail = ctail ^ atail in
+                  let lp = String.length path and lpre = String.length pre and lt = String.length tail in
+                  if lp >= lpre + lt && String.sub path 0 lpre = pre && String.sub path (lp - lt) lt = tail then begin
+                    let label = String.sub path lpre (lp - lpre - lt) in
+                    if not (c17_type_label_sb raw (st label)) then
+                      bad ("type-label-does-not-name-the-type:label=" ^ enc label ^ ":type=" ^ enc (ts raw));
+                    let cur = try Hashtbl.find per_group g.g_id with Not_found -> [] in
+                    if not (List.mem (raw, st label) cur) then Hashtbl.replace per_group g.g_id ((raw, st label) :: cur)
+                  end
+                | None -> ())
+             | _ -> ())
+          | _ -> ()) got;
+      Hashtbl.iter (fun _ pairs -> if not (c17_types_distinct_sb pairs) then
+                       bad ("different-types-of-one-benchmark-share-a-label:" ^
+                            String.concat "+" (List.map (fun (r, l) -> enc (ts r) ^ "~" ^ enc (ts l)) pairs))) per_group;
       if not (c12_flat_sb (List.map st expected) (List.map st got)) then begin
         let missing = List.filter (fun x -> not (List.mem x got)) expected
         and extra = List.filter (fun x -> not (List.mem x expected)) got in
